@@ -35,7 +35,8 @@ class C09(BaseCheck):
   REQUIRED_ANCHORS = ANCHORS
   REQUIRED_CLASSES = ('thrift', 'mux', 'multi-endpoint', 'outage:refuse', 'outage:blackhole', 'down-at-first-connect', 'recovered',
                       'fail-fast-seen', 'backoff-capped', 'closed-while-down', 'closed-on-error', 'staggered-outages',
-                      'recover:first-down-first', 'recover:last-down-first', 'rotation-during-outage', 'waiters-at-outage', 'stock-resurrector')
+                      'recover:first-down-first', 'recover:last-down-first', 'rotation-during-outage', 'waiters-at-outage', 'stock-resurrector',
+                      'direct:close-same-instant-attempt-completes', 'outage:host-goes-silent')
   ASSUMPTIONS = ('initial_wait_interval > 1 (the implementation\'s x**exponent back-off only grows above 1)',
                  'black-holed connects give up after 3 s in these scenarios (SYN timeout shortened so that '
                  'attempt durations stay small against the retry intervals)')
@@ -106,6 +107,100 @@ class C09(BaseCheck):
     out.extra = {'calls': len(w.calls), 'multi_cases': 1}
     out.sig = ('multi', kind, balancer, n, (init, mx, ex), mode)
     return out
+
+  def _direct(self, env, rng, out, classes):
+    """The resurrector alone over harness-owned sinks whose Open() results the harness completes:
+    the channel is closed before, in the very instant of, or after the completion of a reconnection
+    attempt (successful or failed).  Afterwards nothing the resurrector created may be left un-closed
+    and it creates nothing more."""
+    from scales.asynchronous import AsyncResult
+    from scales.constants import SinkProperties
+    from scales.loadbalancer.zookeeper import Endpoint
+    from scales.resurrector import ResurrectorSink
+    from scales.sink import ClientMessageSink
+    made = []
+
+    class S(ClientMessageSink):
+      def __init__(self):
+        super(S, self).__init__()
+        self.st, self.ar, self.closes = 1, None, 0
+        made.append(self)
+
+      @property
+      def state(self):
+        return self.st
+
+      def Open(self):
+        self.ar = AsyncResult()
+        if len(made) == 1:
+          self.st = 2
+          self.ar.set(True)
+        return self.ar
+
+      def Close(self):
+        self.st = 4
+        self.closes += 1
+
+      def AsyncProcessRequest(self, *a):
+        pass
+
+      def AsyncProcessResponse(self, *a):
+        pass
+
+    class P(object):
+      def CreateSink(self, props):
+        return S()
+    init = rng.choice([1.5, 2.0])
+    prov = ResurrectorSink.Builder(initial_wait_interval=init, max_wait_interval=5, backoff_exponent=1.2)
+    prov.next_provider = P()
+    res = prov.CreateSink({SinkProperties.Endpoint: Endpoint('rh', 1), SinkProperties.Label: 'c09d%d' % rng.getrandbits(16)})
+    res.Open()
+    env.advance(0.1)
+    made[0].st = 4
+    made[0].on_faulted.Set(Exception('connection lost'))
+    env.advance(init + 0.1)
+    if len(made) < 2 or made[-1].ar is None:
+      return
+    att = made[-1]
+    when = rng.choice(['before', 'same-instant', 'same-instant', 'after'])
+    ok = rng.random() < 0.7
+    classes.add('direct:close-%s-attempt-completes' % when)
+
+    def complete():
+      if att.closes:
+        # (closed while connecting: like the real transports, the open fails and the sink stays closed)
+        if not att.ar.ready():
+          att.ar.set_exception(Exception('closed while connecting'))
+      elif ok:
+        att.st = 2
+        att.ar.set(True)
+      else:
+        att.st = 4
+        att.ar.set_exception(Exception('connect failed'))
+    if when == 'before':
+      res.Close()
+      env.advance(0.01)
+      complete()
+    elif when == 'same-instant':
+      complete()
+      res.Close()          # before the retry loop's greenlet has been resumed with the result
+    else:
+      complete()
+      env.advance(0.01)
+      res.Close()
+    n_at_close = len(made)
+    env.advance(30.0)
+    out.obligations += 2
+    facts = {'stack': 'resurrector-direct', 'when': when, 'attempt_ok': ok}
+    open_left = [i for i, s_ in enumerate(made) if s_.st != 4]
+    if open_left:
+      out.violate('close:connection-left-open', 'the channel was closed %s the completion of a %s reconnection attempt; '
+                  'sink(s) %r created by the resurrector are still not closed 30 s later' % (
+                    {'before': 'before', 'same-instant': 'in the instant of', 'after': 'after'}[when],
+                    'successful' if ok else 'failed', open_left), facts)
+    if len(made) > n_at_close:
+      out.violate('close:reconnect-after-close', '%d reconnection attempt(s) after the channel was closed' % (
+        len(made) - n_at_close), facts)
 
   def _rotation(self, env, rng, idx, tier):
     """Aperture balancer with frequent jitter rounds over 3-5 endpoints; one endpoint goes down under
@@ -247,6 +342,7 @@ class C09(BaseCheck):
     out = CaseResult()
     kind = ('thrift', 'mux')[idx % 2]
     classes = {kind}
+    self._direct(env, rng, out, classes)
     init, mx, ex = rng.choice([(5, 60, 1.2), (5, 60, 1.2), (2, 20, 1.5), (1.5, 10, 1.2), (5, 5, 1.2)])
     delta = rng.choice([0.25, 0.5, 1.0])
     first_down = rng.random() < 0.3
@@ -257,11 +353,17 @@ class C09(BaseCheck):
     pool = {'min_watermark': rng.choice([0, 1]), 'max_watermark': rng.choice([1, 1, 2]), 'max_queue_len': 64} if bounded else None
     # the library's default schedule is either spelled out or left to the stock builder (another client
     # of this process - an earlier case - will have been built with a customised resurrector)
+    class Pol(servers.DefaultPolicy):
+      silent = False
+
+      def __call__(self, server, conn, req):
+        return {'drop': True} if self.silent else {'delay': 0.002}
+    pol = Pol()
     stock = (init, mx, ex) == (5, 60, 1.2) and rng.random() < 0.6
     if stock:
       classes.add('stock-resurrector')
     w = StackWorld(env, rng, kind=kind, n_eps=1, balancer=rng.choice(['aperture', 'heap']), timeout=1.0,
-                   open_timeout=0 if first_down else None, policy=servers.DefaultPolicy(0.002), pool=pool,
+                   open_timeout=0 if first_down else None, policy=pol, pool=pool,
                    resurrector=None if stock else {'initial_wait_interval': init, 'max_wait_interval': mx, 'backoff_exponent': ex},
                    server_modes=[down_mode if first_down else 'up'],
                    connect_latency=rng.choice([0.0005, 0.01, 0.1]))
@@ -294,15 +396,27 @@ class C09(BaseCheck):
           if rng.random() < 0.5:
             env.advance(0.0005)
         srv.sim.mode = mode
-        for c in srv.sim.conns:
-          if not c.client_closed:
-            c.close_by_server(rng.choice(['rst', 'fin']))
+        if kind == 'thrift' and rng.random() < 0.3:
+          # the host goes dark rather than resetting its connections: requests in flight are never
+          # answered, the client finds out through timeouts and through connects that fail after a while
+          classes.add('outage:host-goes-silent')
+          pol.silent = True
+          srv.sim.connect_latency = rng.choice([0.05, 0.3])
+        else:
+          for c in srv.sim.conns:
+            if not c.client_closed:
+              c.close_by_server(rng.choice(['rst', 'fin']))
         outages.append({'start': env.now, 'end': None, 'mode': mode})
         classes.add('outage:' + mode)
       dur = rng.choice([10, 30, 80, 250]) * (0.5 + rng.random())
       tick(int(dur / delta))
       env.advance(rng.random() * delta)
       srv.sim.mode = 'up'
+      if pol.silent:
+        pol.silent = False
+        for c in srv.sim.conns:      # the host is back: what it knew of the old connections is gone
+          if not c.client_closed:
+            c.close_by_server('rst')
       outages[-1]['end'] = env.now
       tick(int((mx + 8) / delta))
     closed_while_down = rng.random() < 0.35
